@@ -493,7 +493,8 @@ func (it *Interp) runFrame(fr *frame) Value {
 				v := it.get(fr, x.X)
 				panic(&GoPanic{Val: v, Msg: it.panicMsg(v), Kind: "explicit", Pos: it.posString(x.Pos()) + " in " + it.where()})
 			default:
-				if it.inInit > 0 {
+				if it.inInit > 0 && (fr.fn.Name() == "init" || strings.HasPrefix(fr.fn.Name(), "init#")) && fr.fn.Signature.Recv() == nil {
+					// only the initialiser's own statements are lenient: a failing call becomes opaque as a whole
 					it.execLenient(fr, ins)
 				} else {
 					it.exec(fr, ins)
@@ -1358,6 +1359,9 @@ func (it *Interp) execLenient(fr *frame, ins ssa.Instruction) {
 				panic(r)
 			}
 			it.stack = it.stack[:depth]
+			if it.Cfg.Verbose > 1 {
+				fmt.Printf("note: init of %s: %s -> opaque (%s)\n", fr.fn.Pkg.Pkg.Path(), ins.String(), pe.reason)
+			}
 			if v, isVal := ins.(ssa.Value); isVal {
 				if _, isCall := ins.(*ssa.Call); isCall {
 					it.set(fr, v, it.opaqueResult(ins.(*ssa.Call).Call.Signature(), "init: "+pe.reason))
